@@ -90,42 +90,7 @@ def run(chk, repo, tier):
     common.cache_untouched(chk, repo, 'C10-b')
 
     # ---------------------------------------------------------------- C10-c
-    seeded = [f for f in repo.all_functions() if 'seed' in f.param_names()]
-    if len(seeded) < 5:
-        raise AnalysisError(f'only {len(seeded)} functions with a seed parameter found (5 confirmed by hand)')
-    for f in seeded:
-        s = eff.summary(f)
-        rngs = [r for r in s.rng if r[0] == 'default_rng']
-        draws = [r for r in s.rng if r[0] == 'draw']
-        bad = [r for r in s.rng if r[0] in ('global-rng', 'nondet') or r[0].startswith('reaches:')]
-        forwards = []
-        for site in bind.sites(repo, f):
-            if 'seed' in site.callee.param_names():
-                a = site.binding.get('seed')
-                forwards.append(isinstance(a, ast.Name) and a.id == 'seed')
-        seeded_ok = (bool(rngs) and all(r[1] == S('seed') for r in rngs)) or (not rngs and forwards and all(forwards))
-        chk.ob('C10-c', 'E3-seed', f.key, 'seed reaches the generator', seeded_ok,
-               'default_rng(seed)' if seeded_ok else
-               f'generator built from {[fmt(r[1]) if r[1] is not None else "nothing" for r in rngs] or "no default_rng / no forwarding"}',
-               f.loc())
-        from_rng = True
-        for r in draws:
-            meth, recv, _, _ = r[1]
-            a = recv.single_atom() if isinstance(recv, Poly) else None
-            from_rng = from_rng and a is not None and is_app(a, 'random.default_rng')
-        chk.ob('C10-c', 'E3-draws', f.key, 'all draws come from that generator; no global RNG / clock',
-               from_rng and not bad,
-               '; '.join(f'{r[0]} {r[1]} at {r[2]}' for r in bad) or
-               ('a draw does not come from default_rng(seed)' if not from_rng else f'{len(draws)} draw(s) from the local generator'),
-               f.loc())
-    for f in repo.all_functions():
-        s = eff.summary(f)
-        g = [r for r in s.rng if r[0] in ('global-rng', 'nondet') or r[0].startswith('reaches:')]
-        if g:
-            ok = f.key in GLOBAL_RNG_USERS
-            chk.ob('C10-c', 'E3-global', f.key, 'global random state user', ok,
-                   ('documented unseeded model: ' if ok else 'undocumented use of global random state / nondeterminism: ')
-                   + '; '.join(f'{r[1]} at {r[2]}' for r in g), f.loc())
+    common.seed_rules(chk, repo, eff, 'C10-c', GLOBAL_RNG_USERS)
 
     # ---------------------------------------------------------------- C10-d
     mw = module_write_rule(repo, eff)
